@@ -184,13 +184,12 @@ Ltac inv2_pre :=
   end; unfold pendadd in *.
 
 Lemma inv2_step_io : forall c s ch s' l,
-  Inv1 s -> Inv2 s -> step_io c s ch = Some (s', l) -> taint s' = false -> Inv2 s'.
+  Inv1 s -> Inv2 s -> step_io c s ch = Some (s', l) -> Inv2 s'.
 Proof.
-  intros c s ch s' l [Ho Hr Hw1 He] HI H Ht. inv2_pre. unfold step_io in H. step_cases H; free_hyps.
+  intros c s ch s' l [Ho Hr Hw1 He] HI H. inv2_pre. unfold step_io in H. step_cases H; free_hyps.
   all: unfold after_read, turn_start, hc_return, goio in *.
   all: repeat match goal with |- context [if ?b then _ else _] => destruct b eqn:? end.
   all: cbv [io_holds_o io_holds_r hc_locked hc_is_sc io_sc] in Ho, Hr, Hfl; simpl in Hfl, Htok, Hs1.
-  all: simpl in Ht; try discriminate Ht.
   all: repeat match goal with
               | H : _ && _ = true |- _ => apply andb_true_iff in H; destruct H
               | H : (_ =? _)%nat = true |- _ => apply Nat.eqb_eq in H
@@ -447,13 +446,12 @@ Proof.
 Qed.
 
 Lemma inv2_step_w : forall c s i ch s' l,
-  Inv1 s -> Inv2 s -> step_w c s i ch = Some (s', l) -> taint s' = false -> Inv2 s'.
+  Inv1 s -> Inv2 s -> step_w c s i ch = Some (s', l) -> Inv2 s'.
 Proof.
-  intros c s i ch s' l HI1 HI H Ht. unfold step_w in H.
+  intros c s i ch s' l HI1 HI H. unfold step_w in H.
   destruct (getw s i) as [pc|] eqn:Hg; [|discriminate]. unfold getw in Hg.
   destruct (i2_sc _ HI _ _ Hg) as (Hsc1 & Hsc2).
   step_cases H; free_hyps; simpl in Hsc1, Hsc2.
-  all: simpl in Ht; try discriminate Ht.
   all: unfold setw, hw_exit in *.
   all: repeat match goal with |- context [if ?b then _ else _] => destruct b eqn:? end.
   all: repeat match goal with |- context [match ?b with SWr _ => _ | SEnd => _ end] => destruct b eqn:? end.
@@ -479,9 +477,9 @@ Proof.
 Qed.
 
 Lemma inv2_step : forall c s ch s' l,
-  Inv1 s -> Inv2 s -> step c s ch = Some (s', l) -> taint s' = false -> Inv2 s'.
+  Inv1 s -> Inv2 s -> step c s ch = Some (s', l) -> Inv2 s'.
 Proof.
-  intros c s ch s' l HI1 HI H Ht. unfold step in H. destruct ch;
+  intros c s ch s' l HI1 HI H. unfold step in H. destruct ch;
     try (eapply inv2_step_io; eauto; fail); try (eapply inv2_step_w; eauto; fail).
   - destruct (gone s); [discriminate|]. inversion H; subst. destruct HI. constructor; simpl; auto.
   - destruct (gone s); [discriminate|]. inversion H; subst. destruct HI. constructor; simpl; auto.
